@@ -279,7 +279,7 @@ func (s *clientSocket) finishUpgradeTo(t ClientTransport, c *transport.Callbacks
 
 	old := s.transport
 	s.transport = t
-	vhook.Event("eio.c.swap", "o", s, "to", t.Name())
+	vhook.Event("eio.c.swap", "o", s, "to", t)
 
 	old.Discard()
 
@@ -369,7 +369,7 @@ func (s *clientSocket) TransportName() string {
 func (s *clientSocket) Send(packets ...*parser.Packet) {
 	s.transportMu.RLock()
 	defer s.transportMu.RUnlock()
-	vhook.Event("eio.c.send", "o", s, "tr", s.transport.Name(), "pk", packets)
+	vhook.Event("eio.c.send", "o", s, "tr", s.transport, "pk", packets)
 	s.writeWritablePackets(packets...)
 }
 
